@@ -1383,8 +1383,10 @@ class Engine:
             return self.str_concat([s] * n)
         if isinstance(s, str) and len(s) == 1:
             # c * n : a string of length max(n,0) whose characters are all c
+            from .builtins_model import all_chars
             r = self.fresh("rep", "str")
-            self.pc.append(z3.InRe(r, z3.Star(z3.Re(s))))
+            code = ord(s)
+            self.pc.append(all_chars(r, lambda c: c == code))     # character-wise: every char is s
             self.pc.append(z3.Length(r) == z3.If(n > 0, n, 0))
             return r
         raise Unsupported("str * symbolic int")
